@@ -12,6 +12,7 @@ for k in ("params", "stream", "bits", "cfg", "detector", "batches", "data", "cal
     if k in w:
         lit[k] = w[k]
 case["literal"] = lit
+case["seed_key"] = rep["case"].get("seed_key", rep["case"]["id"])
 out = {"property": rep["property"], "origin": "replay of %s, signature %s" % (rep["case"]["id"], rep["violation"]["sig"]),
        "msg": rep["violation"]["msg"][:500], "case": case}
 json.dump(out, open(sys.argv[2], "w"), indent=1)
